@@ -58,8 +58,13 @@ func instreamFineSediment(upstreamMass, lateralMass, reachLocalMass, reachVolume
 	loadDownstream, loadToFloodplain, loadToChannelDeposition, floodplainDepositionFraction, channelDepositionFraction data.ND1Float64) (float64, float64) {
 
 	if bankFullFlow <= 1e-8 {
+		// lumped routing of everything that enters the reach: lateral plus reach-local supply
+		lateralAndLocalMass := data.NewArray1DFloat64(lateralMass.Len1())
+		for i := 0; i < lateralMass.Len1(); i++ {
+			lateralAndLocalMass.Set1(i, lateralMass.Get1(i)+reachLocalMass.Get1(i))
+		}
 		totalStoredMass = LumpedConstituentTransport(
-			upstreamMass, lateralMass, outflow, reachVolume,
+			upstreamMass, lateralAndLocalMass, outflow, reachVolume,
 			totalStoredMass,
 			0, 0.0, durationInSeconds,
 			loadDownstream,nil)
